@@ -35,6 +35,8 @@ func checkC01(c *Ctx) {
 	a.r4()
 	a.r5()
 	c.exhaust = true
+	premiseBounds(c, "C01.R6", "the rectangle shortcuts of the four *Bounds operations decide by the polygon's Bounds()")
+	c.Floor("C01.R6", 16)
 	c.Floor("C01.R1", 12)
 	c.Floor("C01.R2", 12)
 	c.Floor("C01.R3", 12)
